@@ -121,9 +121,9 @@ LEVEL_TEXT['C05'] = 'One mechanism only. Unbounded deductive proof (Verus) that 
 NOTE['C05'] = 'Kernel only (field -> pattern characters). Trusted: Verus/Z3, vstd iterator model; the loop over the inner iterator checked as while-let; local items lifted out of the function. Not covered: search_dir / push_component, glob() fallback and sort, literal_period, noglob, the file system.'
 TECH['C05'] = 'contract-based deductive verification (Verus, Z3) of the pattern-character iterator of to_pattern (loop invariant over the remaining characters)'
 
-LEVEL_TEXT['C13'] = 'One object-level kernel, bounded. Kani check (job tables of <= 1 job, all contents symbolic) that the status step of the wait built-in reports the true exit status of a finished child, 127 for an unknown or disowned one, keeps waiting for a running one, and removes a finished child from the table exactly once. The schedule-quantified content of the property (no deadlock, reaping under every interleaving, pipefail, $!) is outside what contracts decide and is not claimed; level other because the check is bounded and covers one mechanism.'
-NOTE['C13'] = 'Kernel only, bounded (job_status on tables of <= 1 job). Trusted: Kani/CBMC; HashMap stand-in. Not covered: wait_for_subshell, SIGCHLD handling, run_virtual / select, pipefail, $!, zombies, every interleaving.'
-TECH['C13'] = 'Kani harness-encoded contract of the wait built-in job_status step on the real crate (bounded: tables of <= 1 job, contents symbolic)'
+LEVEL_TEXT['C13'] = 'Two object-level kernels. Unbounded deductive proof (Verus) that the await functions of Env ask for the internal SIGCHLD disposition before the first wait(), sleep only for SIGCHLD right after an empty wait(), forward every reported status to the job table unchanged, and return what the system reported last for the awaited child (halted / finished only). Bounded Kani check (job tables of <= 1 job, all contents symbolic) that the status step of the wait built-in reports the true exit status of a finished child, 127 for an unknown or disowned one, keeps waiting for a running one, and removes a finished child from the table exactly once. The schedule-quantified content of the property (no deadlock, reaping under every interleaving, pipefail, $!) is outside what contracts decide and is not claimed; level other because the check is bounded and covers one mechanism.'
+NOTE['C13'] = 'Object-level kernels only. Trusted: Verus/Z3 (ghost monitor of four opaque calls), Kani/CBMC (job_status on tables of <= 1 job; HashMap stand-in). Not covered: when children change state, the SIGCHLD handler itself, run_virtual / select, pipefail, $!, zombies, every interleaving.'
+TECH['C13'] = 'contract-based deductive verification (Verus, Z3) of Env::wait_for_subshell / _to_halt / _to_finish / update_all_subshell_statuses against a ghost call monitor + Kani harness-encoded contract of the wait built-in job_status step on the real crate (bounded: tables of <= 1 job, contents symbolic)'
 
 
 def main():
